@@ -48,7 +48,7 @@ GInit ==
   /\ gst = [on |-> FALSE, round |-> 0]
   \* OnStart: scheduleRound0 puts the NewHeight timeout into the ticker
   /\ tick = [n \in Corr |-> [set |-> TRUE, r |-> 0, k |-> "NewHeight", fired |-> FALSE]]
-  /\ last = [n \in Corr |-> [r |-> -1, votes |-> EmptyVS]]
+  /\ last = [n \in Corr |-> [r |-> -1, votes |-> [v \in Vals |-> None]]]
 
 MaxRoundOf == LET S == {rs[n].round : n \in Corr} IN CHOOSE x \in S : \A y \in S : y <= x
 
@@ -58,23 +58,31 @@ HeldProposals ==
   {m \in soup : m.t = "proposal"} \cup
   {[t |-> "proposal", src |-> Proposer(rs[c].prop.r), r |-> rs[c].prop.r, v |-> rs[c].prop.v, pol |-> rs[c].prop.pol] :
       c \in {x \in Corr : rs[x].height = 1 /\ rs[x].prop # NoProp}}
+VotesOf(vs, t, r) ==
+  {[t |-> t, src |-> v, r |-> r, v |-> vs.votes[v], pol |-> -2] : v \in {x \in Vals : vs.votes[x] # None}} \cup
+  {[t |-> t, src |-> p[2], r |-> r, v |-> p[1], pol |-> -2] : p \in vs.by}
 HeldVotes ==
-  UNION {UNION {{[t |-> "prevote", src |-> v, r |-> r, v |-> rs[c].pv[r][v], pol |-> -2] :
-                    v \in {x \in Vals : rs[c].pv[r][x] # None}} \cup
-                {[t |-> "precommit", src |-> v, r |-> r, v |-> rs[c].pc[r][v], pol |-> -2] :
-                    v \in {x \in Vals : rs[c].pc[r][x] # None}} : r \in Rounds} :
+  UNION {UNION {VotesOf(rs[c].pv[r], "prevote", r) \cup VotesOf(rs[c].pc[r], "precommit", r) : r \in Rounds} :
          c \in {x \in Corr : rs[x].height = 1}}
   \cup UNION {{[t |-> "precommit", src |-> v, r |-> last[c].r, v |-> last[c].votes[v], pol |-> -2] :
                     v \in {x \in Vals : last[c].votes[x] # None}} : c \in {x \in Corr : last[x].r >= 0}}
+\* majority claims (VoteSetMaj23): a node that holds +2/3 for a block in (type, round) tells its peers
+HeldClaims ==
+  UNION {UNION {(IF HasMaj23(rs[c].pv[r]) THEN {[t |-> "claim_prevote", src |-> c, r |-> r, v |-> Maj23(rs[c].pv[r]), pol |-> -2]} ELSE {}) \cup
+                (IF HasMaj23(rs[c].pc[r]) THEN {[t |-> "claim_precommit", src |-> c, r |-> r, v |-> Maj23(rs[c].pc[r]), pol |-> -2]} ELSE {}) :
+                r \in Rounds} : c \in {x \in Corr : rs[x].height = 1}}
+  \cup {[t |-> "claim_precommit", src |-> c, r |-> last[c].r, v |-> rs[c].decision, pol |-> -2] : c \in {x \in Corr : last[x].r >= 0}}
 
 Needs(n, m) ==
   /\ rs[n].height = 1 /\ ~Dead(rs[n])
   /\ CASE m.t = "proposal" -> m.src # n /\ rs[n].prop = NoProp /\ rs[n].round = m.r
        [] m.t = "block"    -> rs[n].partsHdr = m.v /\ rs[n].propBlock = Nil
-       [] OTHER            -> m.src # n /\ (IF m.t = "prevote" THEN rs[n].pv[m.r][m.src] ELSE rs[n].pc[m.r][m.src]) = None
+       [] m.t \in {"claim_prevote", "claim_precommit"} -> m.src # n
+       [] OTHER            -> m.src # n /\ LET vs == IF m.t = "prevote" THEN rs[n].pv[m.r] ELSE rs[n].pc[m.r] IN
+                                           ~(<<m.v, m.src>> \in vs.by) /\ (vs.votes[m.src] = None \/ Claimed(vs, m.v))
 
 GossipSet(n) ==
-  {m \in HeldProposals \cup HeldVotes \cup {[t |-> "block", src |-> "-", r |-> -1, v |-> b, pol |-> -2] : b \in HeldBlocks} :
+  {m \in HeldProposals \cup HeldVotes \cup HeldClaims \cup {[t |-> "block", src |-> "-", r |-> -1, v |-> b, pol |-> -2] : b \in HeldBlocks} :
       Needs(n, m)}
 
 Quiescent == /\ \A c \in Corr : inq[c] = << >>
